@@ -190,6 +190,8 @@ class TriangleSet(primitive.Primitive):
         self.xmlnode.append(E.p(txtindices))
 
     def __getitem__(self, i):
+        if self._vertex_index is None:
+            raise IndexError('index %s is out of range: the triangle set is empty' % (i,))
         v = self._vertex[self._vertex_index[i]]
         n = self._normal[self._normal_index[i]] if self._normal is not None else None
         uvindices = []
@@ -372,6 +374,8 @@ class BoundTriangleSet(primitive.BoundPrimitive):
         return len(self.index)
 
     def __getitem__(self, i):
+        if self._vertex_index is None:
+            raise IndexError('index %s is out of range: the triangle set is empty' % (i,))
         vindex = self._vertex_index[i]
         v = self._vertex[vindex]
 
